@@ -246,7 +246,7 @@ func runC04(c *explore.Ctx) {
 	// profile documents with ≤ 2 non-default separators at every combination of gaps,
 	// and with every single token deleted (error locations)
 	prof := func(name, kind string, docs []string) {
-		s := c.Sub(name, fmt.Sprintf("%d profile documents containing every kind of node; default separator one space; every placement of ≤ 2 non-default separators from a menu of %d (thorough: full menu²; quick: pairs of gaps at most 4 apart) at every pair of gaps; every single-token deletion × every single separator deviation (thorough) / × default (quick)", len(docs), len(c04Seps)),
+		s := c.Sub(name, fmt.Sprintf("%d profile documents containing every kind of node; default separator one space; every placement of ≤ 2 non-default separators from a menu of %d at every pair of gaps at most 4 (quick) / 32 (thorough) apart; every single-token deletion × every single separator deviation (thorough) / × default (quick)", len(docs), len(c04Seps)),
 			"every node position and every error location truthful (offset in source, token start, line, column, source)", "every case")
 		if s == nil {
 			return
@@ -275,9 +275,9 @@ func runC04(c *explore.Ctx) {
 				}
 			}
 			second := menu
-			window := g
+			window := 32 // thorough: the two deviations sit at most 32 gaps apart (all pairs of the largest profile do not fit the deadline)
 			if !c.Thorough() {
-				window = 4 // quick: the two deviations sit at most 4 gaps apart
+				window = 4 // quick: at most 4 gaps apart
 			}
 			for i := 0; i < g; i++ {
 				if c.Expired() {
